@@ -92,6 +92,11 @@ pub struct Reaction {
     /// Racy driver only: delay before reacting.
     #[serde(default)]
     pub delay: Delay,
+    /// Lock-step / hook search, when the answer is `continue`: issue `pause` immediately
+    /// after it. The parked hook then normally wakes up already paused again and reports the
+    /// pause stop from inside its wait loop, at the statement it was stopped at.
+    #[serde(default)]
+    pub then_pause: bool,
 }
 
 #[derive(Clone, Copy, Debug, PartialEq, Eq, Serialize, Deserialize, Default)]
@@ -307,6 +312,7 @@ fn gen_reaction(r: &mut Reader, weights: &[u32; 4], racy: bool, writes: bool) ->
         resume,
         on_pause,
         delay,
+        then_pause: !racy && !writes && r.chance(1, 5),
     }
 }
 
@@ -352,6 +358,7 @@ impl LockScript {
                                 _ => Resume::StepIn(ThreadSel::Current),
                             }),
                             delay: Delay::None,
+                            then_pause: r.chance(1, 6),
                         }
                     })
                     .collect();
@@ -386,6 +393,7 @@ impl LockScript {
                             }),
                             on_pause: None,
                             delay: Delay::None,
+                            then_pause: false,
                         })
                         .collect(),
                 }
